@@ -100,13 +100,22 @@ func FuzzResults(f *testing.F) {
 	})
 }
 
+// one sandbox shared by all fuzz workers and runs (files f0..f3 exist, f4..f7 do not); files are
+// put in place atomically so that a concurrent worker never sees a partial one
 var sandbox = func() string {
-	d, err := os.MkdirTemp("", "c16fuzz")
-	if err != nil {
+	d := filepath.Join(os.TempDir(), "verif-c16-sandbox")
+	if err := os.MkdirAll(d, 0o755); err != nil {
 		panic(err)
 	}
 	for i, n := range []int{0, 1, 100, 65536} {
-		_ = os.WriteFile(filepath.Join(d, fmt.Sprintf("f%d", i)), bytes.Repeat([]byte{'b'}, n), 0o644)
+		p := filepath.Join(d, fmt.Sprintf("f%d", i))
+		if fi, err := os.Stat(p); err == nil && fi.Size() == int64(n) {
+			continue
+		}
+		tmp := fmt.Sprintf("%s.%d", p, os.Getpid())
+		if os.WriteFile(tmp, bytes.Repeat([]byte{'b'}, n), 0o644) == nil {
+			_ = os.Rename(tmp, p)
+		}
 	}
 	return d
 }()
